@@ -85,6 +85,16 @@ fn loc_token(expr: &str) -> String {
         [a] if a.starts_with("DW_OP_breg") => breg(a).map(|(n, o)| format!("b{n:x}{o}")),
         [a, "DW_OP_stack_value"] if a.starts_with("DW_OP_breg") => breg(a).map(|(n, o)| format!("v{n:x}{o}")),
         [a, "DW_OP_stack_value"] => konst(a).map(|v| format!("c{v:x}")),
+        // `DW_OP_constu C, DW_OP_breg<n> R+O, DW_OP_plus, DW_OP_stack_value` = register + (C + O) as a value
+        [a, b, "DW_OP_plus", "DW_OP_stack_value"] if b.starts_with("DW_OP_breg") => match (konst(a), breg(b)) {
+            (Some(c), Some((n, o))) => {
+                let o = i64::from_str_radix(o.trim_start_matches(['+', '-']), 16).ok().map(|v| if o.starts_with('-') { -v } else { v });
+                o.map(|o| { let t = c as i64 + o; format!("v{n:x}{}{:x}", if t < 0 { '-' } else { '+' }, t.unsigned_abs()) })
+            }
+            _ => None,
+        },
+        // a whole 8-byte register given as a single piece
+        [a, "DW_OP_piece 0x8"] if a.starts_with("DW_OP_reg") => a["DW_OP_reg".len()..].split(' ').next().and_then(|n| n.parse::<u64>().ok()).map(|n| format!("r{n:x}")),
         _ => None,
     }.unwrap_or_else(|| "u".into())
 }
@@ -482,7 +492,25 @@ pub fn session(lines: &[String], c: Option<&Ctx>, emit: &mut dyn FnMut(String)) 
     let t0: Vec<&str> = lines[0].split(' ').collect();
     if t0.get(2) == Some(&"tables") {
         emit(format!("{}\tok", lines[0]));
-        for l in &lines[1..] { let t: Vec<&str> = l.split(' ').collect(); emit(format!("{l}\t{}", table_line(&t))); }
+        for l in &lines[1..] {
+            let t: Vec<&str> = l.split(' ').collect();
+            let ans = table_line(&t);
+            // O: psABI figure 3.36 — every register number the ABI assigns (and dwarf_register produces) converts back
+            if let [_, "dw2reg", n] = t.as_slice() && let Ok(n) = u64::from_str_radix(n, 16) {
+                const ABI: [(u64, usize); 17] = [(0, 0), (1, 3), (2, 2), (3, 1), (4, 5), (5, 4), (6, 6), (7, 7), (8, 8), (9, 9), (10, 10), (11, 11), (12, 12), (13, 13), (14, 14), (15, 15), (16, 16)];
+                if let Some((_, r)) = ABI.iter().find(|(d, _)| *d == n) && ans != format!("reg {r:x}") {
+                    let key = if ans == "panic" { format!("register-from-dwarf-number-{n}-panics") } else { "register-from-dwarf-number-wrong".to_string() };
+                    emit(format!("!oracle {}", json!({"key": key, "what": format!("Register::from(gimli::Register({n})) gives `{ans}`, the psABI assigns register index {r}"), "replay": {"line": l}})));
+                }
+            }
+            if let [_, "dwmap", n] = t.as_slice() && let Ok(n) = u64::from_str_radix(n, 16) {
+                const ABI: [(u64, u64); 17] = [(0, 0), (1, 3), (2, 2), (3, 1), (4, 5), (5, 4), (6, 6), (7, 7), (8, 8), (9, 9), (10, 10), (11, 11), (12, 12), (13, 13), (14, 14), (15, 15), (16, 16)];
+                if let Some((_, f)) = ABI.iter().find(|(d, _)| *d == n) && ans != format!("some {:x}", 0x1000 + f) {
+                    emit(format!("!oracle {}", json!({"key": "dwarf-register-map-reads-wrong-machine-register", "what": format!("DwarfRegisterMap::from(..).value({n}) gives `{ans}`, the psABI register is RegisterMap field {f}"), "replay": {"line": l}})));
+                }
+            }
+            emit(format!("{l}\t{ans}"));
+        }
         return;
     }
     let Some(c) = c else { emit(format!("{}\tno-program", lines[0])); return };
@@ -515,6 +543,24 @@ pub fn session(lines: &[String], c: Option<&Ctx>, emit: &mut dyn FnMut(String)) 
                     if live.dbg.set_breakpoint_at_addr(RelocatedAddress::from((base + a) as usize)).is_ok() { bset.insert(a); } else { ok = false; }
                 }
                 emit(format!("{line}\t{}", if ok { "ok" } else { "err" }));
+            }
+            // symbolic stops for corpus files (addresses differ between builds): first statement row of a source line /
+            // the (exclusive) end address of the idx-th location-list entry of the variable <name> declared on <line>
+            [_, "stopsl", list] => {
+                let mut addrs: Vec<u64> = vec![];
+                for ln in dec_list(list, |s| s.parse::<u64>().unwrap_or(0)) {
+                    if let Some(a) = c.rows.iter().filter(|r| r.line == ln && r.is_stmt && !r.end_sequence && r.file.ends_with(&user_file) && in_user(&ur, r.addr)).map(|r| r.addr).min() { addrs.push(a); }
+                }
+                let mut ok = !addrs.is_empty();
+                for a in &addrs { if live.dbg.set_breakpoint_at_addr(RelocatedAddress::from((base + a) as usize)).is_ok() { bset.insert(*a); } else { ok = false; } }
+                emit(format!("{ID} stops {}\t{}", enc_list(&addrs, |a| format!("{a:x}")), if ok { "ok" } else { "err" }));
+            }
+            [_, "stopend", name, decl, idx] => {
+                let (n, decl, idx) = (dec_str(name), decl.parse::<u64>().unwrap_or(0), idx.parse::<usize>().unwrap_or(0));
+                let a = c.dies.iter().find(|d| d.name.as_deref() == Some(&n) && d.decl_line == Some(decl))
+                    .and_then(|d| match &d.loc { Some(LocAttr::List(es)) => es.get(idx).map(|e| e.1), _ => None });
+                let ok = a.is_some_and(|a| { let r = live.dbg.set_breakpoint_at_addr(RelocatedAddress::from((base + a) as usize)).is_ok(); if r { bset.insert(a); } r });
+                emit(format!("{ID} stops {}\t{}", a.map(|a| format!("{a:x}")).unwrap_or("-".into()), if ok { "ok" } else { "err" }));
             }
             [_, "run", ..] => {
                 if exited { emit(format!("{ID} run exit\texit")); continue; }
@@ -712,8 +758,18 @@ pub fn session(lines: &[String], c: Option<&Ctx>, emit: &mut dyn FnMut(String)) 
                         }
                     }
                 }
-                let hint = if cur_k > 0 { format!(" {}", ans.replace(' ', "_")) } else { String::new() };
-                emit(format!("{} {} {}{hint}\t{ans}", t[0], c1, name));
+                if let Some(d) = which.and_then(|off| die_by_off.get(&off)) {
+                    let kind = match (&d.loc, cur_pc) {
+                        (Some(LocAttr::Expr(e)), _) => e[..1].to_string(),
+                        (Some(LocAttr::List(es)), Some(g)) => es.iter().find(|(a, b, _)| *a <= g && g <= *b).map(|(_, _, e)| e[..1].to_string()).unwrap_or("none".into()),
+                        _ => "noloc".into(),
+                    };
+                    let kind = match kind.as_str() { "f" => "fbreg", "r" => "register", "b" => "breg-memory", "v" => "breg-value", "c" => "constant", "u" => "other-expression(echoed)", k => k }.to_string();
+                    emit(format!("!count read.frame{}.{kind}", cur_k.min(2)));
+                }
+                // what the implementation showed travels along as a hint; the model echoes it only where it does not decide
+                let hint = ans.replace(' ', "_");
+                emit(format!("{} {} {} {hint}\t{ans}", t[0], c1, name));
             }
             [_, "reg2dw" | "dw2reg" | "dwmap", _] => emit(format!("{line}\t{}", table_line(&t))),
             _ => emit(format!("{line}\tbad-op")),
@@ -745,6 +801,7 @@ pub fn exec(req: &[String], out: &mut Out, tmpdir: &Path) {
     for (i, (s, (lines, how))) in sessions.iter().zip(results).enumerate() {
         let mut pairs: Vec<(String, String)> = vec![];
         for l in lines {
+            if let Some(k) = l.strip_prefix("!count ") { out.count(k, 1); continue; }
             if let Some(j) = l.strip_prefix("!oracle ") {
                 let v: serde_json::Value = serde_json::from_str(j).unwrap();
                 let cmds: Vec<String> = s.iter().filter(|l| !l.contains(" die ") && !l.contains(" loc ") && !l.contains(" fb ")).take(4).map(|l| short(l)).collect();
@@ -754,7 +811,7 @@ pub fn exec(req: &[String], out: &mut Out, tmpdir: &Path) {
                 let op = r.split(' ').nth(1).unwrap_or("");
                 if matches!(op, "read" | "readarg") { out.count(&format!("answer.{op}.{}", a.split(' ').next().unwrap_or("")), 1); out.oracle_evals += 1; }
                 if matches!(op, "locals" | "args" | "frame") { out.oracle_evals += 1; }
-                if op == "read" && r.split(' ').count() > 3 { out.count("read.in-outer-frame", 1); }
+
                 pairs.push((r.to_string(), a.to_string()));
             }
         }
